@@ -233,6 +233,16 @@ pub(crate) fn family(name: &str) -> Vec<TxT> {
             tx("transfer-all", &ALICE, vec![transfer(&BOB, big, n(), n())]),
             tx("rollup-data-3", &BOB, vec![rollup_data(r1(), 3)]),
             tx("transfer-other-fee2", &CAROL, vec![transfer(&DAVE, 1, other_asset(), fee2())]),
+            // aliasing: sender == recipient, alone and twice in a bundle, and in the fee asset != asset case
+            tx("self-transfer-1000", &ALICE, vec![transfer(&ALICE, 1_000, n(), n())]),
+            tx(
+                "bundle-self-transfer-twice",
+                &BOB,
+                vec![transfer(&BOB, 7, n(), n()), transfer(&BOB, 9, other_asset(), n())],
+            ),
+            tx("self-transfer-other-fee2", &CAROL, vec![transfer(&CAROL, 3, other_asset(), fee2())]),
+            tx("transfer-to-fee-recipient", &ALICE, vec![transfer(&SUDO, 5, n(), n())]),
+            tx("sudo-transfer-to-eve", &SUDO, vec![transfer(&EVE, 1, n(), n())]),
             tx(
                 "bundle-ok-then-overdraw",
                 &ALICE,
@@ -273,6 +283,11 @@ pub(crate) fn family(name: &str) -> Vec<TxT> {
             tx("br1-disable-deposits", &SUDO, vec![bridge_sudo_change(&BR1, None, None, true)]),
             tx("unlock-br1-10-e5-by-eve", &EVE, vec![unlock(&BR1, &EVE, 10, "e5")]),
             tx("br1-sudo-change-by-w", &W, vec![bridge_sudo_change(&BR1, Some(&W), Some(&W), false)]),
+            // aliasing: unlock to the withdrawer itself, bridge transfer to the same bridge, lock by the withdrawer
+            tx("unlock-br1-20-e6-to-w", &W, vec![unlock(&BR1, &W, 20, "e6")]),
+            tx("bridge-transfer-br1-br1-5-e7", &W, vec![bridge_transfer(&BR1, &BR1, 5, "e7")]),
+            tx("lock-3-br1-by-w", &W, vec![lock(&BR1, 3)]),
+            tx("unlock-br2-9-e1", &W, vec![unlock(&BR2, &ALICE, 9, "e1")]),
         ],
         // chain-wide authorities and validator set
         "authority" => vec![
